@@ -162,6 +162,25 @@ Definition compose_ord (o1 o2 o3 : list Z) (r p : mol) : pyres cgr :=
       end
   end.
 
+(* the intermediate state of compose at its `return h`: the dict ha, the local list `bonds` (in append order) and the
+   defaultdict adj (outer keys in the order of `common`, inner keys in first-assignment order); the correspondence reads the
+   same three locals from the frame of the real method *)
+Definition compose_trace (o1 o2 o3 : list Z) (r p : mol)
+  : pyres (list (Z * datom) * blist * list (Z * list (Z * adj_entry))) :=
+  match loop_side r o3 (fun o => mkDBond (Some o) None) o1 [] with
+  | Err e => Err e
+  | Ok (ha1, b1) =>
+      match loop_side p o3 (fun o => mkDBond None (Some o)) o2 ha1 with
+      | Err e => Err e
+      | Ok (ha2, b2) =>
+          let adjd := map (fun n => (n, build_adj r p o3 n)) o3 in
+          match loop_common r p adjd o3 ha2 with
+          | Err e => Err e
+          | Ok (ha3, b3) => Ok (ha3, b1 ++ b2 ++ b3, adjd)
+          end
+      end
+  end.
+
 (* the three sets, in one admissible iteration order (dict order of the operands) *)
 Definition cleavage_ids (r p : mol) : list Z := filter (fun n => negb (zmem n (ids p))) (ids r).
 Definition coupling_ids (r p : mol) : list Z := filter (fun n => negb (zmem n (ids r))) (ids p).
